@@ -1130,3 +1130,39 @@ def publishers(counts=(2, 2)):
   sc.info = {"counts": list(counts), "calls": [list(c) for c in calls], "class_state": {k: m.cls for k, m in state.items()},
              "class_state_initial": {k: m.initial_py for k, m in state.items()}}
   return sc
+
+
+# ---- several threads subscribe at once (C07: whichever other objects subscribe, from inside or outside their own threads) ---------------
+def subscribers(kind="fifo", prior=False, n=2, same=False):
+  """thread t calls the real ActiveFabricSource.subscribe(q_t, A, kind) - n active objects subscribing to one signal from their own
+  threads; with `prior` another queue subscribed earlier.  `same`: the threads subscribe the same queue (it must end up registered once)."""
+  import miros.activeobject as ao
+  sc = Scenario("subscribers")
+  prototypes(sc)
+  signals_ns(sc)
+  EV = RecordClass("event", ["signal", "signal_name"])
+  sc.record_pyclass["event"] = ao.HsmEvent
+  A = sc.strings.code("A")
+  sub_ev = EV.new(signal=SK(20, 20), signal_name=SK(A, "A"))
+  queues = [sc.add(M.MDeque("q%d" % i, 2)) for i in range(n + 1)]        # q<n> is the prior subscriber's
+  for q in queues:
+    sc.elem_typ[q.name] = ("rec", EV)
+  qidx = [sc.obj_index(q) for q in queues]
+  lists = sc.add(M.MLists("registries", n + 2, n + 1, initial=[[qidx[n]]] if prior else []))
+  sc.elem_typ["registries"] = ("obj", "deque")
+  subs = sc.add(M.MDict("%s_subscriptions" % kind, 2, items=[(A, 1)] if prior else []))
+  other = sc.add(M.MDict("%s_subscriptions" % ("lifo" if kind == "fifo" else "fifo"), 2))
+  for d in (subs, other):
+    sc.elem_typ[d.name] = "str"
+    sc.value_typ[d.name] = ("listref", lists)
+  fabric = PyObj(ao.ActiveFabricSource, {"fifo_subscriptions": subs if kind == "fifo" else other, "lifo_subscriptions": subs if kind == "lifo" else other}, "fabric")
+  body = "def subscriber(fabric, q, A):\n  fabric.subscribe(q, A, %r)\n" % kind
+  for t in range(n):
+    c = Compiler(sc, t, "subscriber%d" % t)
+    c.call_function(SF(node=driver(body, "subscriber"), closure={}, qualname="scenario.subscriber", globs={}),
+                    [SP(fabric), SO(queues[0 if same else t]), sub_ev], {})
+    sc.programs.append(c.finish())
+  want = ([qidx[0]] if same else qidx[:n]) + ([qidx[n]] if prior else [])
+  sc.info = {"kind": kind, "prior": prior, "n": n, "same": same, "signal": A, "want_queue_numbers": want, "queue_numbers": qidx,
+             "lists": [lists.nlists, lists.cells], "dict": subs.name}
+  return sc
